@@ -117,7 +117,7 @@ def c12_items(tier: str, seed: int):
                     for fs in FEATURE_SETS:
                         add("field_%s_all_sets" % fname, "", "#[repr(%s)]" % r, "pub enum E { %s }" % ", ".join(vs), feats=fs)
     # 4. non-literal discriminants, at every position of several bases
-    reprs = ["u8", "i8", "i32", "u64", "i128", "usize"] if tier != "quick" else ["u8", "i8", "i64"]
+    reprs = ["u8", "i8", "u16", "i16", "u32", "i32", "u64", "i64", "u128", "i128", "usize", "isize"] if tier != "quick" else ["u8", "i8", "i64"]
     for r in reprs:
         signed = r.startswith("i")
         for name, tmpl, needs, pre in NONLITERAL:
@@ -322,8 +322,8 @@ def c14_items(tier: str, seed: int):
         perms = list(itertools.permutations(range(len(vs))))
         if tier == "quick" and len(perms) > 24:
             perms = rng.sample(perms, 24)
-        if tier != "quick" and len(perms) > 240:
-            perms = rng.sample(perms, 240)
+        if tier != "quick" and len(perms) > 720:
+            perms = rng.sample(perms, 720)
         for perm in perms:
             seq = [vs[i] for i in perm]
             # model: discriminants and names in declaration order
